@@ -4,7 +4,7 @@ cd /verif
 python3 - <<'PY'
 import json,subprocess,glob,os,re
 res={}
-for d in sorted(glob.glob('/verif/refactorings/R*')):
+for d in sorted([d for d in glob.glob('/verif/refactorings/R*') if os.path.isdir(d)]):
     rid=os.path.basename(d)
     r=subprocess.run(['/verif/tools/refactor_eval.sh',rid],stdout=subprocess.PIPE,stderr=subprocess.STDOUT,text=True)
     out=r.stdout
